@@ -17,6 +17,8 @@ pub enum SubjectSrc {
     Spki(rcgen::SubjectPublicKeyInfo),
     /// harness implementation of `PublicKeyData`
     Custom(CustomPub),
+    /// the `PublicKey` of a parsed CSR
+    CsrPub(rcgen::PublicKey),
 }
 
 pub struct CustomPub {
@@ -99,6 +101,7 @@ fn issue(params: rcgen::CertificateParams, ctx: &Ctx) -> Result<Certificate, rcg
         (Some(i), SubjectSrc::Pair(kp)) => params.signed_by(kp, &i.cert, &i.key),
         (Some(i), SubjectSrc::Spki(s)) => params.signed_by(s, &i.cert, &i.key),
         (Some(i), SubjectSrc::Custom(c)) => params.signed_by(c, &i.cert, &i.key),
+        (Some(i), SubjectSrc::CsrPub(c)) => params.signed_by(c, &i.cert, &i.key),
     }
 }
 
@@ -234,4 +237,17 @@ pub fn outcome_for(prop: &str, ev: CertEval, refusal_expected: bool) -> Outcome 
     out.digest = ev.tbs.as_deref().map(explore::fnv).unwrap_or(0);
     out.findings = ev.findings.into_iter().filter(|f| relevant(prop, f)).collect();
     out
+}
+
+/// Issuer-signed context whose subject key is the `PublicKey` of a CSR parsed by rcgen (real key: parsing verifies).
+#[cfg(feature = "crypto")]
+pub fn csr_pub_ctx(zoo: &[ZooKey], issuer_dn: &DnSpec, issuer_kid: &KeyIdSpec) -> Ctx {
+    let z = zoo.iter().find(|z| z.kind == KeyKind::P256 && z.format == KeyFormat::Pkcs8).unwrap();
+    let kp = rc_load(z, Alg::EcP256).unwrap();
+    let csr = rcgen::CertificateParams::default().serialize_request(&kp).unwrap();
+    let parsed = rcgen::CertificateSigningRequestParams::from_der(csr.der()).unwrap();
+    let iraw = fake_pub(Alg::Ed25519, 0x52);
+    let (ikp, log) = stub_key(Alg::Ed25519, &iraw);
+    let issuer = make_issuer(issuer_dn, issuer_kid, &[], ikp, KeyPub { alg: Alg::Ed25519, raw: iraw }).expect("issuer");
+    Ctx { label: "issuer-signed; subject key = PublicKey of a parsed CSR (P-256)".into(), issuer: Some(issuer), subject: SubjectSrc::CsrPub(parsed.public_key), subject_pub: z.key_pub(Alg::EcP256), log: Some(log) }
 }
